@@ -367,6 +367,80 @@ def run(P, C, tier):
                     n7 += 1
                     C.ob("R7", "json-literal:%s#%d" % (mir.short(b.id), len([o for o in C.obligations if o["key"].startswith("C14/R7/json-literal:%s#" % mir.short(b.id))])), ok, "%s:%d" % (b.file, st["at"][0]), why)
     C.floor("R7", "assignments of Node._json", n7, 5)
+    r8_paging_length(P, C)
+
+
+def r8_paging_length(P, C):
+    """get_paging indexes params.order_by with positions of the before/after values (census class T: trusted because the
+    parser bounds the number of values).  This rule decides the producer side: EntityQuery::finalize refuses, on every path
+    that accepts a non-empty paging list, a list longer than order_by."""
+    C.rule("R8", "the number of before/after values is compared with the number of order_by keys and a longer list is refused before the query is accepted (get_paging indexes order_by by value position)")
+    try:
+        gp = P.body("query::get_paging")
+        fin = P.body("query_parser::EntityQuery::finalize")
+    except mir.MissingAnchor as e:
+        C.anchor_missing("R8", "get_paging / finalize", e)
+        return
+    C.saw(gp), C.saw(fin)
+    idx = [bi for bi, t in gp.live_calls() if re.search(r"Index>::index$|::index$", callee_name(t)) and field_path(gp.call_args(bi)[0]).endswith(".order_by")]
+    C.floor("R8", "order_by[position] sites of get_paging", len(idx), 2)
+
+    def is_paging(t):
+        fs = {field_path(x).split(".")[-1] for x in mir.subterms(t) if x[0] == "field"}
+        return "after" in fs and "before" in fs
+
+    def len_of(t):
+        t = mir.strip(t)
+        if t[0] == "call" and re.search(r"Vec::len$|slice::.*len$", t[1]) and t[2]:
+            return t[2][0]
+        return None
+    ra = mir.return_assignments(fin)
+    oks = set(ra["Ok"])
+    found = None
+    for sb in sorted(fin.live_blocks()):
+        tt = fin.blocks[sb]["t"]
+        if tt["k"] != "switch":
+            continue
+        term = fin.switch_term(sb, expand_vars=True)
+        atom, _ = mir.cond_atoms(term, [0])
+        if atom[0] != "bin" or atom[1] not in ("Gt", "Ge", "Lt", "Le"):
+            continue
+        la, lb = len_of(atom[2]), len_of(atom[3])
+        if la is None or lb is None:
+            continue
+        pa, pb = is_paging(la), is_paging(lb)
+        oa, ob = field_path(la).endswith(".order_by"), field_path(lb).endswith(".order_by")
+        if not ((pa and ob) or (oa and pb)):
+            continue
+        # normalise to "paging OP order_by"
+        op = atom[1] if pa else {"Gt": "Lt", "Lt": "Gt", "Ge": "Le", "Le": "Ge"}[atom[1]]
+        # the edge on which paging > order_by must refuse
+        for tg, vals in rights.switch_edges(fin, sb):
+            truth = mir.cond_atoms(term, vals)[1]
+            too_long_possible = (op == "Gt" and truth is True) or (op == "Le" and truth is False) or (op == "Ge" and truth is True) or (op == "Lt" and truth is False)
+            exact = (op == "Gt" and truth is True) or (op == "Le" and truth is False)
+            if exact:
+                refuses = not (fin.reachable(tg) & oks)
+                found = (sb, tg, refuses)
+    if found is None:
+        C.ob("R8", "paging-length-bounded", False, fin.loc(), "no comparison of the number of before/after values with the number of order_by keys: get_paging would index order_by out of bounds")
+        return
+    sb, tg, refuses = found
+    C.ob("R8", "paging-length-refused", refuses, fin.loc(sb), "more values than order_by keys returns Err")
+    # every accepting path with a non-empty paging list passes the comparison
+    entries = []
+    for b2 in sorted(fin.live_blocks()):
+        t2 = fin.blocks[b2]["t"]
+        if t2["k"] != "switch":
+            continue
+        term = fin.switch_term(b2, expand_vars=True)
+        atom, _ = mir.cond_atoms(term, [0])
+        if atom[0] == "call" and atom[1].endswith("::is_empty") and atom[2] and is_paging(atom[2][0]) and not field_path(mir.strip(atom[2][0])).endswith((".after", ".before")):
+            for tg2, vals in rights.switch_edges(fin, b2):
+                if mir.cond_atoms(term, vals)[1] is False:
+                    entries.append(tg2)
+    ok = bool(entries) and all(not (fin.reachable(e, avoid_blocks={sb}) & oks) for e in entries)
+    C.ob("R8", "paging-length-on-every-accepting-path", ok, fin.loc(sb), "from the `paging is not empty` edge no Ok exit is reachable without the comparison (%d entry edges)" % len(entries))
 
 
 def paren_delta(a):
